@@ -137,6 +137,56 @@ example [RealFns ℤ] (p : Prog ℤ) (hp : p.WellScoped) (hnd : p.usesDiv = fals
     reverse_eq_grad p hp (Or.inl hnd) 0 env World.empty Tape.WF_nil
   exact ⟨w, recs, h1, h2⟩
 
+/-- **Indexing `Derivatives` with a record** (`Derivatives::at`, `Index<&Record>`): plain
+    indexing by the record's position — an index panic exactly when the position is outside the
+    vector — and in a run indexing the `derivatives()` of any result with any input record never
+    panics and yields `∂(result k)/∂(input i)`. -/
+theorem derivatives_indexing (p : Prog R) (hp : p.WellScoped) (hd : DivOK p) (h : Nat)
+    (env : Nat → R) (w0 : World R) (hw0 : Tape.WF (w0 h)) :
+    (∀ (d : List R) (x : Rec R),
+      (x.index < d.length → derivativeAt d x = .ok (d.getD x.index 0)) ∧
+      (d.length ≤ x.index → derivativeAt d x = .panic .index)) ∧
+    ∃ w recs, Prog.exec h env p w0 = (w, .ok recs) ∧
+      ∀ k i, k < p.length → p.isInput i = true →
+        ∀ adj, (getRec recs k).derivatives w = .ok adj →
+          derivativeAt adj (getRec recs i) = .ok ((Prog.grad env p i).getD k 0) := by
+  have hidx : ∀ (d : List R) (x : Rec R),
+      (x.index < d.length → derivativeAt d x = .ok (d.getD x.index 0)) ∧
+      (d.length ≤ x.index → derivativeAt d x = .panic .index) := by
+    intro d x
+    constructor
+    · intro hlt
+      simp [derivativeAt, hlt, List.getD_eq_getElem?_getD]
+    · intro hge
+      have : ¬ x.index < d.length := by omega
+      simp [derivativeAt, this]
+  refine ⟨hidx, ?_⟩
+  obtain ⟨w, recs, hrun, hlen, hall⟩ := run_facts (h := h) (env := env) p hp hd w0 hw0
+  obtain ⟨w', recs', hrun', _, hrev⟩ := reverse_eq_grad p hp hd h env w0 hw0
+  rw [hrun] at hrun'
+  cases hrun'
+  refine ⟨w, recs, hrun, fun k i hk hi adj hadj => ?_⟩
+  have hk' := hrev k hk
+  cases hh : (getRec recs k).history with
+  | none => simp [Rec.derivatives, Rec.tryDerivatives, hh] at hadj
+  | some h' =>
+    simp only [hh] at hk'
+    obtain ⟨adj', h1, hl, h3⟩ := hk'
+    rw [hadj] at h1
+    have e : adj = adj' := Outcome.ok.inj h1
+    subst e
+    -- the input's record sits inside the tape, hence inside the vector
+    obtain ⟨tseed, hinv, hgu⟩ := hall i
+    have hi' : (List.map Instr.isVar p).getD i false = true := hi
+    have hilt : i < recs.length := by
+      by_contra hc
+      rw [getD_of_le _ _ (by simp; omega)] at hi'
+      cases hi'
+    have hhist := hgu.varHist i hilt hi'
+    have hg := (hinv.good i hilt).2
+    simp only [hhist] at hg
+    rw [(hidx adj (getRec recs i)).1 (by rw [hl]; exact hg.2.1), h3 i hi]
+
 /-- **The whole derivative vector: every intermediate step, not only the inputs.**
     (`WengertList` docs: "compute all the gradients of the inputs and every intermediate step
     with respect to an output".)  For every result `k` and every instruction `m` whose record has
